@@ -8,19 +8,19 @@ CONSTANTS
   Day = 2
   Ticks <- GTicksX
   Horizon = 6
-  MaxEx = 4
-  ProbeNs <- GProbesX
+  MaxEx = 3
+  ProbeNs <- NoProbes
   ProbeUids <- GUidsX
   MaxOld = 2
-  Transports <- TrIP
-  ScmpTypes <- ScmpNone
+  Transports <- TrSCION
+  ScmpTypes <- ScmpAll
   Exhaustive = TRUE
   Biases <- BiasOne
   TickPct = 0
   ProbePct = 0
   StalePct = 0
-  ExInj <- InjNone
+  ExInj <- InjX
   ScmpPct = 0
-  ExScmp <- ScmpX0
+  ExScmp <- ScmpX2
 INVARIANTS Emit
 PROPERTIES StepOfSpec
